@@ -1021,6 +1021,31 @@ func callBuiltin(caller *frame, fn *ssa.Builtin, args []value) value {
 		}
 		return nil
 
+	case "clear": // clear(map) / clear(slice)
+		switch m := args[0].(type) {
+		case *omap:
+			if m != nil {
+				for e := range m.ents {
+					if m.ents[e].live {
+						m.delete(caller.i, m.ents[e].key)
+					}
+				}
+			}
+		case []value:
+			if len(m) > 0 {
+				et := fn.Type().(*types.Signature).Params().At(0).Type().Underlying().(*types.Slice).Elem()
+				for k := range m {
+					old := m[k]
+					k := k
+					caller.i.logUndo(func() { m[k] = old })
+					m[k] = zero(et)
+				}
+			}
+		default:
+			panic(fmt.Sprintf("clear of %T", m))
+		}
+		return nil
+
 	case "print", "println": // print(any, ...)
 		ln := fn.Name() == "println"
 		var buf bytes.Buffer
